@@ -262,9 +262,69 @@ def check(ctx):
     if not n_out:
         rep.proved("R-C22-own", "who-may-touch", "registers and loan table are touched only by _WireManager methods")
 
+    _private(ix, rep, m, cls)
     _map(ix, rep, m)
     _free(ix, rep)
     return rep
+
+
+FRESH_CTORS = {"list", "sorted", "deque", "collections.deque"}
+
+
+def _fresh_container(e):
+    """True / False / None: does expression ``e`` always build a new list-like container?"""
+    if isinstance(e, (ast.ListComp, ast.List)):
+        return True
+    if isinstance(e, ast.Call):
+        cn = call_name(e)
+        if cn in FRESH_CTORS:
+            return True
+        r = method_call(e)
+        if r and r[1] == "copy":
+            return True
+        return None
+    if isinstance(e, ast.Subscript) and isinstance(e.slice, ast.Slice):
+        return True
+    if isinstance(e, ast.IfExp):
+        a, b = _fresh_container(e.body), _fresh_container(e.orelse)
+        if a is False or b is False:
+            return False
+        return True if (a and b) else None
+    if isinstance(e, ast.BinOp) and isinstance(e.op, ast.Add):
+        return True
+    if isinstance(e, (ast.Name, ast.Attribute)):
+        return False
+    return None
+
+
+def _private(ix, rep, m, cls):
+    """R-C22-private: the registers the manager pops from / appends to are its own lists, not the caller's sequences."""
+    rep.rule("R-C22-private", "every register stored by _WireManager.__init__ is a freshly built list (list(x), [..], x.copy(), x[:]): the manager "
+             "pops from and appends to its registers, so a register that *is* the caller's `zeroed` / `any_state` list leaks allocator state "
+             "(which wire is clean) into the caller's arguments and into the next application of the transform")
+    init = cls.own_method("__init__")
+    if init is None:
+        raise AnalysisError("_WireManager.__init__ vanished")
+    params = {a.arg for a in init.node.args.args[1:]}
+    n = 0
+    for st in walk_shallow(init.node):
+        if not isinstance(st, ast.Assign) or not any(norm(t) == "self._registers" for t in st.targets):
+            continue
+        vals = st.value.values if isinstance(st.value, ast.Dict) else [st.value]
+        for v in vals:
+            n += 1
+            fr = _fresh_container(v)
+            names = {x.id for x in ast.walk(v) if isinstance(x, ast.Name)} & params
+            where = f"{m.relpath}:{init.qualname} register `{norm(v)[:50]}`"
+            if fr is True:
+                rep.proved("R-C22-private", where, "freshly built list")
+            elif fr is False and names:
+                rep.refuted("R-C22-private", m.relpath, init.qualname, st,
+                            f"the register `{norm(v)[:70]}` can be the caller's own `{sorted(names)[0]}` object: get_wire pops from it and return_wire appends "
+                            "to it, so the caller's list changes and a wire reset in one application is handed out as |0> by the next one")
+            else:
+                rep.unknown("R-C22-private", where, "register expression not classified")
+    rep.floor("allocator registers checked for ownership", n, 2)
 
 
 PRE = "pennylane/devices/preprocess.py"
@@ -408,7 +468,30 @@ def _map(ix, rep, m):
                 ops_var = n.targets[0].elts[1].id
         ys = [n for n in ast.walk(body) if isinstance(n, (ast.YieldFrom, ast.Yield)) and n.value is not None and ops_var and ops_var in norm(n.value)]
         if ops_var and ys:
-            rep.proved("R-C22-map", f"{m.relpath}:_new_ops Allocate reset ops", "operations returned by get_wire (the reset) are emitted")
+            # per hand-out: between one get_wire call and the next (or the end of the generator) the returned ops are emitted
+            fcfg = CFG(f.node, may_raise=lambda n: False)
+
+            def is_emit(x):
+                s_ = x.stmt
+                return x.kind == "stmt" and isinstance(s_, ast.Expr) and isinstance(s_.value, (ast.YieldFrom, ast.Yield)) \
+                    and s_.value.value is not None and ops_var in {y.id for y in ast.walk(s_.value.value) if isinstance(y, ast.Name)}
+            gnodes = [x for x in fcfg.stmts("stmt") if isinstance(x.stmt, ast.Assign) and isinstance(x.stmt.value, ast.Call)
+                      and method_call(x.stmt.value) and method_call(x.stmt.value)[1] == "get_wire"]
+            lost = None
+            for g in gnodes:
+                if fcfg.path_avoiding(g.id, fcfg.exit, is_emit) is not None:
+                    lost = lost or (g, "the end of the generator")
+                for s_, _lab in fcfg.succ[g.id]:
+                    if not is_emit(fcfg.nodes[s_]) and (s_ == g.id or fcfg.path_avoiding(s_, g.id, is_emit) is not None):
+                        lost = lost or (g, "the next manager.get_wire call")
+            if lost:
+                rep.refuted("R-C22-map", m.relpath, "_new_ops", lost[0].stmt,
+                            f"a path from `{norm(lost[0].stmt)[:60]}` to {lost[1]} does not emit `{ops_var}`: with several wires in one "
+                            "Allocate the reset of all but the last reused wire is overwritten and never reaches the circuit, so a dirty wire "
+                            "is used as |0>")
+            else:
+                rep.proved("R-C22-map", f"{m.relpath}:_new_ops Allocate reset ops", "operations returned by every get_wire call (the reset) are "
+                           "emitted before the next hand-out and before the generator ends")
         elif ops_var:
             rep.refuted("R-C22-map", m.relpath, "_new_ops", branches["Allocate"][0],
                         "the operations returned by manager.get_wire (the reset of a reused wire) are dropped: the wire is used as |0> without being reset")
